@@ -14,9 +14,10 @@ def parseCall (s : String) : Option Call :=
   else none
 
 /-- concrete world: document d has attribute store `attrsOf[d]`; html encodes (d, gBuild, gRender) injectively;
-    okbits = parses, valbits = has a validation error -/
+    okbits: 1 = parses, 2 = parses but rendering fails, 0 = does not parse; valbits = has a validation error -/
 def world (okbits valbits statebits : String) (attrsOf : List Nat) : World :=
-  { parse := fun d => if (okbits.toList.getD d '0') == '1' then .ok () else .error d,
+  { parse := fun d => if (okbits.toList.getD d '0') == '1' || (okbits.toList.getD d '0') == '2' then .ok () else .error d,
+    renderErr := fun d => if (okbits.toList.getD d '0') == '2' then some (d + 500) else none,   -- '2' = parses, rendering fails
     attrs := fun d => attrsOf.getD d 0,
     html := fun d gb gr seen => 1 + d * 10000 + gb * 100 + gr +
       (if (statebits.toList.getD d '0') == '1' && seen.length > 0 then 1000000 else 0) +
@@ -37,6 +38,7 @@ def showRes (w : World) (c : Call) (r : Res) : String :=
     if again then s!"tree-again:{d}"
     else if gb == w.attrs d && gr == w.attrs d && !tainted then s!"tree-own:{d}" else s!"tree-stale:{d}:{gb}:{gr}"
   | .renderTree _, .noSuchTree => "no-tree"
+  | .renderTree _, .fail e => s!"tree-fail:{e - 500}"        -- rendering this tree's document fails (renderErr d = d + 500)
   | _, r => if r == f then "same" else "DIFFERENT"
 
 def handle (args : List String) : String :=
